@@ -235,6 +235,10 @@ class FirstOrderFD(BaseGradientApproximator):
         input_perturbations = (
             tile(input_values, n_indices).reshape((n_indices, input_dimension)).T
         )
+        if isinstance(step, ndarray):
+            # One step per input component: keep the ones of the differentiated ones.
+            step = step[input_indices]
+
         if self._design_space is None:
             input_perturbations[input_indices, range(n_indices)] += step
             return input_perturbations, step
@@ -247,7 +251,8 @@ class FirstOrderFD(BaseGradientApproximator):
             upper_bounds = self._design_space.get_upper_bounds()
 
         steps = where(
-            input_perturbations[input_indices, range(n_indices)] >= upper_bounds,
+            input_perturbations[input_indices, range(n_indices)]
+            >= upper_bounds[input_indices],
             -step,
             step,
         )
